@@ -5,5 +5,6 @@ LB == INSTANCE LoadBalance
 LInit(e) == {LB!LBInit(e)}
 LStep(s, e) == LB!LBStep(s, e)
 VARIABLES l, poss, cur, failed, skip
-INSTANCE TraceLoop WITH InitStates <- LInit, Step <- LStep
+NoOne(e) == ""
+INSTANCE TraceLoop WITH InitStates <- LInit, Step <- LStep, One <- NoOne
 =============================================================================
